@@ -191,31 +191,31 @@ EXTRA = {
            "bulk setters advance by the width of what they set (R01h), and C02's cache rules R02a-c, which are necessary conditions here too. Round 3: R08f (rows read through Table.traverse are complete, stamped with their position and one fresh copy each). Round 4: R19a (axis typing, incl. the components of Table.size) is evaluated here too. Round 5: the reset of the wrapper indexes, per key or as a whole attribute, gives every index its own new dict (R02f shared); R02h is evaluated here too. Round 6: R10h (a setter attaches a copy unless told otherwise; a method without a clone flag never hands its own parameter over with clone=False) is evaluated here too. Round 7: a position beyond the extent is reached by a filler of (position − extent) repetitions, the signs of that difference derived from the tests in force (R01i). Round 8: every normal path of a set_/insert_/append_ method reaches its write — no early return on a test of the value or the extent (R01j). Round 9: the whole-row setters of Table fill a freshly constructed Row (R01k). Round 10: table code never selects cells by the plain cell tag (R01l); raw lxml remove() only inside Element.delete (R09i shared).",
     "C03": "Also decides that each save wrapper cleans (backup/unlink) exactly the location it then writes and that the folder writer always starts from a cleaned location (R03f). Round 3: no file-like save target is repositioned without being truncated (R03g). Round 4: class lookup, parsed-part cache and container call see the same definition of the part path (R03h). Round 5: the serialiser is handed the part's tree, not its root element (R03e). Round 6: Container.get_part overwrites an existing entry of the part table only if it loaded that entry from disk itself (R03i); R11h and R11d/e are evaluated here too (reopen parses without dropping content; an indented save keeps mixed content). Round 7: bulk loaders store every member of the source (R03j); Container.save's pre-load loop is recognised through local aliases. Round 8: the writers filter no part by its name and the folder dump helper has no early return (R03c); ODF_EXTENSIONS and ODF_MIMETYPES have no duplicate key and are inverse of each other (R03l). Round 9: a member read from disk on demand is filed in the part table on every path that returns it (R03m).",
     "C04": "Also decides the reverse pairing (a manifest entry only for a part written on every path; dedupe never drops a distinct path) and that bulk loaders never overwrite "
-           "a part already in memory, deleted ones included (R10f, with alias resolution). Round 4: R03b (every parsed part, the manifest included, is flushed on every path to container.save) is evaluated here too. Round 5: every path that marks a part deleted also removes its manifest entry (R04b reverse pairing). Round 6: the manifest names a part by the path it is stored under — attribute API, no encoding, not pasted into XML text (R04e); no decision by a membership test on the member list of the file on disk (R04f; expected count 0, fixture on every run); every writer of the mimetype part updates the manifest root entry (R04d); R10d is evaluated here too. Round 7: a part stored through Document.set_part is filed in the manifest under the normalised name (R04h); R14f (a path is matched by equality, never by prefix) is evaluated here too. Round 8: every Blob constructor leaves with a media type (R04i). Round 10: a media type is tested against ODF_MIMETYPES exactly as it is kept (R04j).",
+           "a part already in memory, deleted ones included (R10f, with alias resolution). Round 4: R03b (every parsed part, the manifest included, is flushed on every path to container.save) is evaluated here too. Round 5: every path that marks a part deleted also removes its manifest entry (R04b reverse pairing). Round 6: the manifest names a part by the path it is stored under — attribute API, no encoding, not pasted into XML text (R04e); no decision by a membership test on the member list of the file on disk (R04f; expected count 0, fixture on every run); every writer of the mimetype part updates the manifest root entry (R04d); R10d is evaluated here too. Round 7: a part stored through Document.set_part is filed in the manifest under the normalised name (R04h); R14f (a path is matched by equality, never by prefix) is evaluated here too. Round 8: every Blob constructor leaves with a media type (R04i). Round 10: a media type is tested against ODF_MIMETYPES exactly as it is kept (R04j). Round 11: the zip writer filters no part by its name (R03c shared).",
     "C06": "Also decides that the value-type attribute is written wherever a typed value is written (R06d) and that every input value of a bulk setter reaches its own "
-           "typed-value encoder call on every path — none skipped, merged by Python equality, or filtered (R06e). Round 3: the codec rules R18a/R18b/R18d are evaluated here too. Round 5: on the way to office:value a number is rendered without precision format, round() or int(float()) (R06f). Round 6: the numeric arm of the type-dispatching readers returns Decimal of the attribute text with the digits untouched (R06f, reader side). Round 7: the loop of a bulk setter is not skipped on a comparison of values, metadata bulk setter included (R06e); type-dispatching readers test raw text with `is None` only (R06g). Round 8: the encoder of a typed setter is chosen by the type of the value, never by its fields (R06h); serialize() edits tags only (R12o shared). Round 9: on the typed-value path a test for int is reached only after bool has been excluded (R06i). Round 10: value options passed positionally land on the parameter of the same name (R06j).",
+           "typed-value encoder call on every path — none skipped, merged by Python equality, or filtered (R06e). Round 3: the codec rules R18a/R18b/R18d are evaluated here too. Round 5: on the way to office:value a number is rendered without precision format, round() or int(float()) (R06f). Round 6: the numeric arm of the type-dispatching readers returns Decimal of the attribute text with the digits untouched (R06f, reader side). Round 7: the loop of a bulk setter is not skipped on a comparison of values, metadata bulk setter included (R06e); type-dispatching readers test raw text with `is None` only (R06g). Round 8: the encoder of a typed setter is chosen by the type of the value, never by its fields (R06h); serialize() edits tags only (R12o shared). Round 9: on the typed-value path a test for int is reached only after bool has been excluded (R06i). Round 10: value options passed positionally land on the parameter of the same name (R06j). Round 11: no stored value is replaced by a default through `or` (R06k).",
     "C07": "Also decides that a column declaration inserted by position goes to child 0 or next to an existing column declaration (R07f, reaching definitions). Round 3: every test in _table_name_check sees the definition of the name that is returned (R07e). Round 4: the column-trim loops keep R - D columns on a kept element and carry D - R after a removed one (R07g, affine). Round 5: the width synchronisation after a bulk append iterates the table's own rows (R07h); the cache rules R02a/R02b are evaluated here too. Round 6: the hand-written cell-address automaton of the NamedRange.name setter is extracted and shown equivalent to letters+digits+ over all class strings up to length 8 (R07i). Round 7: Row.minimized_width sums every run and reduces the last one only when the last cell tests empty (R17i shared); R01f (declared run length = repeat of the item) is evaluated here too. Round 8: the target width of optimize_width is the maximum over every stored row (R17i). Round 10: outside class Table rows reach a table through its row API, not through element primitives (R07j).",
     "C08": "Also decides for Table.traverse that the producer yields `repeated or 1` copies of every XML row from row 0, that the stamp counter starts at the matching constant "
            "and advances once per item, and that the range tests on it are strict and precede the yield (R08f). Round 3: the run arithmetic of the expanding traversals starts from before = x - 1 (R08c, affine) and each yielded row is its own copy (R08f). Round 5: R19g is evaluated here too (a getter addressed through a Table method reaches the row with a coordinate already resolved against the table). Round 7: plural readers take cells from the expanding traversal or from get_cell(keep_repeated=False) (R08g); every copy of a run is cloned from the stored item (R08c); R02d is evaluated here too. Round 9: a wrapper index is read and written under the item index the element is fetched with (R02i shared). Round 10: clear() drops the cell map with the cells (R02j shared).",
-    "C09": "Also decides that three-way cuts are ordered: the end of a cut is its start plus a provably non-negative length, or both are one regex match span (R09d, sign analysis). Round 4: the element handed to _insert() is newly built, never a node already in the tree (R09e). Round 5: the occurrence counter of the regex-driven inserters accumulates, and start and end mark use one position (R09f). Round 6: P.delete(C) is asked of the element C was found under (R09g); R16i(b) is evaluated here too. Round 7: the position helpers return an entry of the finditer list of the chosen node, the last one for -1 (R09h). Round 8: raw lxml remove() only inside Element.delete (R09i); the text-node queries are compiled text() XPaths (R09j). Round 9: strip_tags is handed collections of tag names, never a bare string (R09k). Round 10: constructors store the text they are given untidied (R09l).",
-    "C10": "Also decides that bulk loaders of the part table keep entries already in memory (R10f). Round 3: clone builders hand the clone only copies on every path; Element.clone's holder is local (R10g). Round 4: setters with a clone flag attach a copy whenever the flag may be true (R10h). Round 6: a method without a clone flag passes clone=False only for objects it made or read itself (R10h). Round 8: the pre-load before a container clone is guarded only by packaging, path and absence from the table (R10d); an XmlPart class stores no node of its tree on itself besides tree and root (R10i). Round 9: every attribute a parsed part keeps outside its bytes is carried over by Document.clone (R10j; one upstream site repaired); a clone receives new empty wrapper indexes (R02f shared). Round 10: a copy made under the clone flag protects only the attaches that are under the same other conditions (R10h).",
+    "C09": "Also decides that three-way cuts are ordered: the end of a cut is its start plus a provably non-negative length, or both are one regex match span (R09d, sign analysis). Round 4: the element handed to _insert() is newly built, never a node already in the tree (R09e). Round 5: the occurrence counter of the regex-driven inserters accumulates, and start and end mark use one position (R09f). Round 6: P.delete(C) is asked of the element C was found under (R09g); R16i(b) is evaluated here too. Round 7: the position helpers return an entry of the finditer list of the chosen node, the last one for -1 (R09h). Round 8: raw lxml remove() only inside Element.delete (R09i); the text-node queries are compiled text() XPaths (R09j). Round 9: strip_tags is handed collections of tag names, never a bare string (R09k). Round 10: constructors store the text they are given untidied (R09l). Round 11: a node placed with lxml's addnext has both tails rewritten after it (R09m).",
+    "C10": "Also decides that bulk loaders of the part table keep entries already in memory (R10f). Round 3: clone builders hand the clone only copies on every path; Element.clone's holder is local (R10g). Round 4: setters with a clone flag attach a copy whenever the flag may be true (R10h). Round 6: a method without a clone flag passes clone=False only for objects it made or read itself (R10h). Round 8: the pre-load before a container clone is guarded only by packaging, path and absence from the table (R10d); an XmlPart class stores no node of its tree on itself besides tree and root (R10i). Round 9: every attribute a parsed part keeps outside its bytes is carried over by Document.clone (R10j; one upstream site repaired); a clone receives new empty wrapper indexes (R02f shared). Round 10: a copy made under the clone flag protects only the attaches that are under the same other conditions (R10h). Round 11: a constructor call that only replaces a missing argument does not make the parameter a fresh object (R10h).",
     "C11": "Also decides that indented bytes are stored in the container only for parts whose parsed tree stays in the document's cache (R11g). Round 3: nothing is parsed with a content-dropping parser (R11h). Round 4: the flat-XML writer gives every replaced image its own new node (R11i); R11h also covers module-level parsers. Round 5: R03a (what is written is what is in memory) is evaluated here too. Round 7: the encoded image takes the place of the image (R11i); a str method on a node's tag is preceded by a test that the tag is a string (R11j); XmlPart parses its bytes once (R11k). Round 9: no serialisation is remembered on a part (R14i shared). Round 10: the flat-XML writer moves every top-level child of every part (R11l).",
     "C02": "Round 3: every reset of a wrapper index assigns its own new empty dict (R02f). Round 4: a wrapper is cached under an item index computed after the last renumbering (R02g). Round 5: R02f also reads whole-attribute assignments of _indexes; no answer of a table class is memoised outside the governed caches (R02h: no cache decorator, no store on self but _indexes[…] in a read-only method; expected count 0, fixture on every run); in the table abstract interpreter the deletion of an unclassified child dirties every map and index. Round 6: R10h is evaluated here too (attaching the caller's own row moves a node while the map counts a new item). Round 9: a wrapper index is read and written under the item index the element is fetched with; index stores through a local alias are followed (R02i, R02g). Round 10: CachedElement.clear resets each position map on its own (R02j).",
     "C12": "Also decides that no constructor store that may rebuild the element (self.clear() reachable) follows another store on self (R12j), and that no traversal memoises "
-           "registry lookups (R12e). Round 3: R10c/R10g (clone is one of the access paths). Round 4: element classes and their mixins query relative to self (R12k); R11h is evaluated here too. Round 5: the six generic attribute accessors of Element carry the value verbatim (R12l); no hand-written property getter/setter applies a lossy string call, two documented exceptions frozen by symbol (R12m). Round 6: R18b/R18d are evaluated here too (constructor arguments include dates and durations). Round 7: raw attribute values are tested with `is None` only (R12l); the qualified-name helpers keep the spelling of names (R12n). Round 8: _strip_namespaces edits tags only (R12o); a setter that maintains a memo assigns it on every path (R12p); retagging stays within one registered class (R12q). Round 10: no keyword argument is fed from a sibling parameter that the callee also declares (R12r).",
-    "C13": "Also decides that merge_styles_from looks for the style to replace in the whole destination part — neither one container nor the whole document (R13c). Round 5: insert_style returns the name read from the style after the append (R13f). Round 6: a caller-given name is written onto the style before it is placed, whatever name it carried (R13g); Element.get_style filters by the family it was given and reads the name of the object it was given (R13h). Round 7: insert_style is handed a style that was built or cloned, never the object a lookup returned (R13i); a name is looked up as a name, a display name as a display name (R13j). Round 8: style:style families are looked up in both office:styles and office:automatic-styles (R13k); an insert helper answers \"nothing to replace\" only after generating an unused name (R13l). Round 9: no method of Document or of an XmlPart class is latched by a done-flag it sets itself (R13m). Round 10: outside __init__ a Document method stores only into the governed caches (R13n).",
+           "registry lookups (R12e). Round 3: R10c/R10g (clone is one of the access paths). Round 4: element classes and their mixins query relative to self (R12k); R11h is evaluated here too. Round 5: the six generic attribute accessors of Element carry the value verbatim (R12l); no hand-written property getter/setter applies a lossy string call, two documented exceptions frozen by symbol (R12m). Round 6: R18b/R18d are evaluated here too (constructor arguments include dates and durations). Round 7: raw attribute values are tested with `is None` only (R12l); the qualified-name helpers keep the spelling of names (R12n). Round 8: _strip_namespaces edits tags only (R12o); a setter that maintains a memo assigns it on every path (R12p); retagging stays within one registered class (R12q). Round 10: no keyword argument is fed from a sibling parameter that the callee also declares (R12r). Round 11: Element.from_tag builds every wrapper with the class looked up in the registry (R12s).",
+    "C13": "Also decides that merge_styles_from looks for the style to replace in the whole destination part — neither one container nor the whole document (R13c). Round 5: insert_style returns the name read from the style after the append (R13f). Round 6: a caller-given name is written onto the style before it is placed, whatever name it carried (R13g); Element.get_style filters by the family it was given and reads the name of the object it was given (R13h). Round 7: insert_style is handed a style that was built or cloned, never the object a lookup returned (R13i); a name is looked up as a name, a display name as a display name (R13j). Round 8: style:style families are looked up in both office:styles and office:automatic-styles (R13k); an insert helper answers \"nothing to replace\" only after generating an unused name (R13l). Round 9: no method of Document or of an XmlPart class is latched by a done-flag it sets itself (R13m). Round 10: outside __init__ a Document method stores only into the governed caches (R13n). Round 11: Styles._get_style_contexts walks the CONTEXT_MAPPING entry of the family in its own order (R13o).",
     "C14": "Also decides that the string-literal helper denotes exactly its argument (R14c) and that neither an identifier nor a finished query passes through a lossy string "
-           "transformation on its way to an XPath sink (R14d; expected count 0, fixture on every run). Round 3: no identifier parameter is compared with a bool-decoding attribute property (R14e). Round 4: R19b (address writer and reader agree on quoting the table name) is evaluated here too. Round 5: R14d also knows function-form rewrites (normalize, re.sub …) and checks the query builders themselves; R19f (a name is matched whole, never as a substring) is evaluated here too. Round 6: R14d also reports run-time text used as a %-template or str.format template. Round 7: every quoted identifier is the right-hand side of `=` (R14f) and a `str | int` parameter is told apart by type, never by its digits (R14g) — both expected count 0 with a fixture on every run; an element of unknown class is undetermined in R14e, never reported. Round 8: no str-predicate test on lookup criteria (R14h); no lookup of an XmlPart class keeps a memo of its answers (R14i). Round 9: an attribute saved across self.clear() is restored on every path, conditional at most on `is not None` (R14j). Round 10: names are compared as they stand, without case or blank folding (R14k).",
+           "transformation on its way to an XPath sink (R14d; expected count 0, fixture on every run). Round 3: no identifier parameter is compared with a bool-decoding attribute property (R14e). Round 4: R19b (address writer and reader agree on quoting the table name) is evaluated here too. Round 5: R14d also knows function-form rewrites (normalize, re.sub …) and checks the query builders themselves; R19f (a name is matched whole, never as a substring) is evaluated here too. Round 6: R14d also reports run-time text used as a %-template or str.format template. Round 7: every quoted identifier is the right-hand side of `=` (R14f) and a `str | int` parameter is told apart by type, never by its digits (R14g) — both expected count 0 with a fixture on every run; an element of unknown class is undetermined in R14e, never reported. Round 8: no str-predicate test on lookup criteria (R14h); no lookup of an XmlPart class keeps a memo of its answers (R14i). Round 9: an attribute saved across self.clear() is restored on every path, conditional at most on `is not None` (R14j). Round 10: names are compared as they stand, without case or blank folding (R14k). Round 11: a get_* method does not rewrite the name it is given (R14l).",
     "C15": "Wrapping an existing node (every Element __init__ under _do_init False) is analysed as a read-only entry point; parameters that merely default to None are analysed both ways. Round 3: local collections keep the roots of the tree values stored into them. Round 5: attaching a node that already has a parent is a mutation of the tree it came from (lxml moves it); no report shares per-call state — nested-mutable module/class constants leave a function only through deepcopy, no mutable default is changed or handed on (R15c; expected count 0, fixture on every run).",
     "C16": "Also decides that the per-text-node loop is on every normal path of replace() (R16a), that nothing restructures the tree while its pre-collected text nodes are "
            "iterated (R16f), and that append_plain_text re-reads the whole container on every normal path (R16g). Round 3: the text accessors behind search are not memoised (R16h). Round 5: the content reader of append_plain_text hands on the live children, and a regular expression substituted on the append path consumes U+0020 only (R16i). Round 6: no class of the Element hierarchy defines __len__ or __bool__ (R16j). Round 7: the search family passes no flags (R16d); the Element.text / Element.tail setters store the string they are given (R16k). Round 8: every return of inner_text has the shape text + Σ(str(child) + tail) (R05d shared). Round 10: the splitter of append_plain_text isolates exactly the characters the encoder arms handle (R05c shared).",
     "C17": "Also decides that value, children and span membership make a cell non-empty regardless of `aggressive` (R17g) and that no positional collection is built from "
-           "stored row/cell/column elements without their repeat count (R17h). Round 3: shrinking a repeat count needs the same emptiness evidence as a delete (R17d); R01a is evaluated here too. Round 4: the span scan of set_span covers the whole matrix that is pushed back (R17a). Round 5: what csv.reader is fed keeps its line ends and is not rewritten (R17f). Round 6: the repeat-shrink clause of R17d reads subscripted receivers; R08c is evaluated here too. Round 7: to_csv writes every value it appended (R17f); minimized_width (R17i); is_spanned tests every mark of a span (R17j). Round 8: del_span read cell by cell drops every repeat count (R17c); no table container is emptied with the element-level clear(), which removes its attributes (R17k; three upstream sites repaired); no filter in front of the CSV importer's numeric attempts rejects a numeral the exporter writes (R17l). Round 9: a translated coordinate is never tested for truth (R19l shared). Round 10: the aggressive flag is forwarded to every callee that takes it (R17m).",
+           "stored row/cell/column elements without their repeat count (R17h). Round 3: shrinking a repeat count needs the same emptiness evidence as a delete (R17d); R01a is evaluated here too. Round 4: the span scan of set_span covers the whole matrix that is pushed back (R17a). Round 5: what csv.reader is fed keeps its line ends and is not rewritten (R17f). Round 6: the repeat-shrink clause of R17d reads subscripted receivers; R08c is evaluated here too. Round 7: to_csv writes every value it appended (R17f); minimized_width (R17i); is_spanned tests every mark of a span (R17j). Round 8: del_span read cell by cell drops every repeat count (R17c); no table container is emptied with the element-level clear(), which removes its attributes (R17k; three upstream sites repaired); no filter in front of the CSV importer's numeric attempts rejects a numeral the exporter writes (R17l). Round 9: a translated coordinate is never tested for truth (R19l shared). Round 10: the aggressive flag is forwarded to every callee that takes it (R17m). Round 11: table code never selects cells by the plain cell tag (R01l shared).",
     "C18": "Also decides that Date/DateTime encoders return isoformat() on every path (R18b) and, by affine evaluation over (days, seconds, microseconds), that Duration.encode "
            "splits |T| with the sign of T (R18d). Round 5: Unit writes the stored Decimal by plain str() followed by the unit; its parser takes digits and '.' as the number (R18e). Round 6: encoders leave the whole text to isoformat() (no hand-made offset or field arithmetic); decoders try fromisoformat() on the string as given before any fallback (R18b). Round 7: the colour table holds the 147 CSS3 names, every gray with its grey (R18c). Round 10: rgb2hex formats the tuple it is given (R18f).",
     "C19": "Also decides that alpha_to_digit/digit_to_alpha use one base and inverse offsets (R19e) and that no name is matched by `in` on a parameter that may be a bare str (R19f). Round 3: R08c is evaluated here too (a range bounds the result on both sides). Round 4: Table methods hand rows only coordinates already resolved against the table (R19g). Round 5: neither column conversion refuses a value for its length or magnitude — both have the same unbounded domain (R19e). Round 6: a Table method that uses the row components of a translated area resolves it with the table translator, one that uses the column components only with the column translator (R19h). Round 7: named-range listing and lookup search the same path (R19i). Round 8: symbolic evaluation of the four coordinate translators on every argument form (R19j; one open finding: Row reads a single string reference as a range); Table methods write addresses from translated coordinates only (R19k). Round 9: a translated coordinate is never tested for truth (R19l); every normal path of Table.set_named_range writes the table name and the area it was given (R19m).",
     "C05": "Round 5: constructors and append() of paragraph, heading and span store caller text only through the encoder or _unformatted (R05f); every str chunk of the rebuilt content is re-encoded, with no positional exemption (R05g); a regular expression substituted on the append path consumes U+0020 only (R16i, shared with C16). Round 7: a `$`-anchored pattern is applied only by match() to pieces of the blank splitter (R05h); the test in front of the encoder call looks at the text as given (R05f).",
-    "C20": "Also decides that the numbering counters advance only for headings that pass the level filter, in TOC.fill and in the sibling script (R20c). Round 3: the entry text excludes the heading's tail (R20c). Round 4: R12k is evaluated here too (TOC.outline_level reads this TOC's own source). Round 5: TOC.fill and the heading-listing script read the heading text through the same accessor (R20e). Round 6: the TOC.outline_level setter stores the request unchanged on every path (R20f). Round 7: the TOC.body setter removes the previous index body whatever is assigned (R20g). Round 8: an outline level written from a parameter is that parameter, not a loop counter of the same name (R20h, reaching definitions). Round 9: the XmlPart.body setter refills the existing body element instead of replacing it (R20i). Round 10: the helper classes of toc.py inherit the full-text __str__ that fill() judges the title by (R20j).",
+    "C20": "Also decides that the numbering counters advance only for headings that pass the level filter, in TOC.fill and in the sibling script (R20c). Round 3: the entry text excludes the heading's tail (R20c). Round 4: R12k is evaluated here too (TOC.outline_level reads this TOC's own source). Round 5: TOC.fill and the heading-listing script read the heading text through the same accessor (R20e). Round 6: the TOC.outline_level setter stores the request unchanged on every path (R20f). Round 7: the TOC.body setter removes the previous index body whatever is assigned (R20g). Round 8: an outline level written from a parameter is that parameter, not a loop counter of the same name (R20h, reaching definitions). Round 9: the XmlPart.body setter refills the existing body element instead of replacing it (R20i). Round 10: the helper classes of toc.py inherit the full-text __str__ that fill() judges the title by (R20j). Round 11: TOC.fill builds its entries with the default, white-space preserving formatting (R20k).",
 }
 
 NOT_APPLICABLE = {}
